@@ -1,0 +1,19 @@
+//go:build verif
+
+package rosed
+
+// Compiled only with `-tags verif`: one more read-only entry point for the
+// external verification harness (the table builder of internal/manip).
+
+import (
+	"github.com/dekarrin/rosed/internal/gem"
+	"github.com/dekarrin/rosed/internal/manip"
+)
+
+func VerifMakeTable(data [][]string, width int, lineSep string, header bool, border bool, charSet string) []string {
+	gd := make([][]gem.String, len(data))
+	for i := range data {
+		gd[i] = gem.Slice(data[i])
+	}
+	return gem.Strings(manip.MakeTable(gd, width, gem.New(lineSep), header, border, gem.New(charSet)).Lines)
+}
